@@ -444,7 +444,7 @@ fn plain_field(name: &str) -> MSelection {
 
 /// Inject one fault. Returns None when the chosen fault is not applicable to this document.
 pub fn inject(ch: &mut Choices, doc: &mut MOpDoc, s: &Schema) -> Option<Fault> {
-    let which = ch.below(21);
+    let which = ch.below(23);
     let any_site = |_: &Vec<MSelection>, _: &Site| true;
     match which {
         0 => {
@@ -777,6 +777,104 @@ pub fn inject(ch: &mut Choices, doc: &mut MOpDoc, s: &Schema) -> Option<Fault> {
             let class = if detail.contains("list") { format!("{class}/inside-list") } else { class.to_string() };
             Some(Fault { label: "undefined-variable", class, detail })
         }
+        21 | 22 => {
+            // variable / position type incompatibility at a field argument, anywhere in the document:
+            // directly, inside a list literal, inside an input-object literal
+            let pred = |sels: &Vec<MSelection>, site: &Site| {
+                sels.iter().any(|x| match x {
+                    MSelection::Field(f) => s.field(&site.parent, &f.name).map(|d| !d.args.is_empty()).unwrap_or(false),
+                    _ => false,
+                })
+            };
+            let n = count_sites(doc, s, &pred);
+            if n == 0 {
+                return None;
+            }
+            let k = ch.below(n);
+            let variant = ch.below(5);
+            let argpick = ch.below(4);
+            let objpick = ch.below(4);
+            let mut chosen: Option<(MType, &'static str)> = None;
+            // pre-draw literal material for the object variant
+            let mut lit_ch = Choices::new((0..40).map(|_| ch.raw()).collect());
+            let class = mutate_site(doc, s, k, &pred, &mut |sels, site| {
+                for x in sels.iter_mut() {
+                    if let MSelection::Field(f) = x {
+                        if let Some(d) = s.field(&site.parent, &f.name) {
+                            if d.args.is_empty() {
+                                continue;
+                            }
+                            let a = &d.args[argpick % d.args.len()];
+                            let other_base = |b: &str| if b == "String" { "Int" } else { "String" };
+                            fn rebase(t: &MType, nb: &str) -> MType {
+                                match t {
+                                    MType::Named(_) => MType::named(nb),
+                                    MType::List(i) => MType::list(rebase(i, nb)),
+                                    MType::NonNull(i) => MType::non_null(rebase(i, nb)),
+                                }
+                            }
+                            let var = MValue::Var("wrongVar".into());
+                            let planned: Option<(MValue, MType, &'static str)> = match variant {
+                                0 if a.ty.is_non_null() && a.default.is_none() => Some((var.clone(), a.ty.nullable().clone(), "nullable variable in non-null argument without default")),
+                                1 => match a.ty.nullable() {
+                                    MType::List(elem) if elem.is_non_null() => Some((MValue::List(vec![var.clone()]), elem.nullable().clone(), "nullable variable as element of a list literal with non-null elements")),
+                                    MType::List(elem) => Some((MValue::List(vec![var.clone()]), rebase(elem, other_base(elem.base())), "variable of another base type inside a list literal")),
+                                    _ => None,
+                                },
+                                2 => Some((var.clone(), rebase(&a.ty, other_base(a.ty.base())), "variable of another base type")),
+                                3 => Some((var.clone(), MType::list(a.ty.clone()), "variable with one more list level")),
+                                _ => {
+                                    // inside an input-object literal: a required (non-null, default-less) field gets a nullable variable,
+                                    // any other field a variable of another base type
+                                    match s.types.get(a.ty.base()) {
+                                        Some(t) if t.kind == Kind::Input && a.ty.list_depth() == 0 && !t.input_fields.is_empty() => {
+                                            let lit = plain_const_value(&mut lit_ch, &s.types, &MType::non_null(MType::named(&t.name)), 0);
+                                            let fdef = &t.input_fields[objpick % t.input_fields.len()];
+                                            let (vty, what): (MType, &'static str) = if fdef.ty.is_non_null() && fdef.default.is_none() {
+                                                (fdef.ty.nullable().clone(), "nullable variable in a required input-object field")
+                                            } else {
+                                                (rebase(&fdef.ty, other_base(fdef.ty.base())), "variable of another base type in an input-object field")
+                                            };
+                                            match lit {
+                                                MValue::Object(mut fs) => {
+                                                    fs.retain(|(k, _)| k != &fdef.name);
+                                                    fs.push((fdef.name.clone(), var.clone()));
+                                                    Some((MValue::Object(fs), vty, what))
+                                                }
+                                                _ => None,
+                                            }
+                                        }
+                                        _ => None,
+                                    }
+                                }
+                            };
+                            if let Some((value, vty, what)) = planned {
+                                f.args.retain(|(k, _)| k != &a.name);
+                                // keep other required arguments as they were (the field was valid)
+                                f.args.push((a.name.clone(), value));
+                                f.alias = Some("wrong_var_variant".into());
+                                chosen = Some((vty, what));
+                                return;
+                            }
+                        }
+                    }
+                }
+            })?;
+            let (vty, detail) = chosen?;
+            for d in doc.iter_mut() {
+                if let MExecDef::Op(o) = d {
+                    o.vars.push(MVarDef { name: "wrongVar".into(), ty: vty.clone(), default: None, directives: vec![] });
+                }
+            }
+            let pos = if detail.contains("list literal") {
+                "inside-list"
+            } else if detail.contains("input-object") {
+                "inside-object"
+            } else {
+                "direct"
+            };
+            Some(Fault { label: "variable-type-incompatible", class: format!("{class}/field-arg/{pos}"), detail })
+        }
         12 => {
             // variable / position type incompatibility through @skip(if: $x)
             let ops: Vec<usize> = doc.iter().enumerate().filter(|(_, d)| matches!(d, MExecDef::Op(o) if o.op != OpType::Subscription)).map(|(i, _)| i).collect();
@@ -999,7 +1097,7 @@ fn case_fn(case: &mut Case) -> CaseResult {
     let labels = refvalid::validate(&gs.schema, &doc);
     for f in &faults {
         if !labels.contains(f.label) {
-            if f.label == "undefined-variable" && f.class.contains("unused") {
+            if (f.label == "undefined-variable" || f.label == "variable-type-incompatible") && f.class.contains("unused") {
                 // variable rules are judged per operation; inside a fragment no operation
                 // reaches there is nothing to violate
                 case.discard("variable-fault-in-unused-fragment");
@@ -1070,7 +1168,7 @@ pub fn run(env: &Env) -> i32 {
     let mut rep = Report::new(
         env,
         "fault_enumeration",
-        "valid (schema, document) pairs from the C04 generators with one (80%) or two (20%) injected rule violations out of 21 fault operators covering every rule listed in the property (each with several syntactic variants), placed at a generated position (operation root, nested field, used fragment, fragment reached through >=2 spreads, inline fragment with/without condition, unused fragment, directive argument, list/input-object literal, each executable directive location). Each fault is confirmed by the reference validator; oracle: check reports >=1 diagnostic and one of the kind belonging to the rule. Non-trivial/distinct = (rule, position class, variant) triples.",
+        "valid (schema, document) pairs from the C04 generators with one (80%) or two (20%) injected rule violations out of 22 fault operators covering every rule listed in the property (each with several syntactic variants), placed at a generated position (operation root, nested field, used fragment, fragment reached through >=2 spreads, inline fragment with/without condition, unused fragment, directive argument, list/input-object literal, each executable directive location). Each fault is confirmed by the reference validator; oracle: check reports >=1 diagnostic and one of the kind belonging to the rule. Non-trivial/distinct = (rule, position class, variant) triples.",
     );
     rep.assume("only rules enumerated in the property are injected; a multi-fault document may violate further rules, which is irrelevant to the oracle");
     let probe = |schema: &'static str, ops: &'static str| {
